@@ -134,7 +134,7 @@ func subsetEqual(impl, model map[string]any) (bool, string) {
 
 // Submit sends one case to the model. Safe for concurrent use.
 func (r *Runner) Submit(c *Case) {
-	line, err := json.Marshal(map[string]any{"id": c.ID, "k": c.K, "in": c.In, "impl": c.Impl})
+	line, err := json.Marshal(map[string]any{"id": c.ID, "p": r.prop, "k": c.K, "in": c.In, "impl": c.Impl})
 	if err != nil {
 		panic(err)
 	}
